@@ -574,7 +574,7 @@ def step (s : State) : Action → Option State
     | _ => none
   | .ceDeliverCC =>
     match s.ce with
-    | .sendCC true _ => some { s with ce := .done, retE := s.retE ++ [ChanEv.send Err.cc, ChanEv.close] }
+    | .sendCC true _ => some { s with ce := .done, retE := (s.retE ++ [ChanEv.send Err.cc]) ++ [ChanEv.close] }
     | .sendCC false buf => some { s with ce := .run buf false, retE := s.retE ++ [ChanEv.send Err.cc] }
     | _ => none
 
